@@ -61,6 +61,18 @@ def findEv (st : RSt) (name : String) (args : List Json) : Option Nat :=
         | some ev => ev.name == name && canonArgs ev.name ev.args == args
         | none => false)
 
+/-- when the call order is not fixed (Go-map iteration), neither is the order of the recipient list handed to
+`BatchDeliver`: compare it as a sorted list -/
+def looseArgs (name : String) (args : List Json) : List Json :=
+  if name == "batchDeliver" then
+    args.zipIdx.map fun (a, i) =>
+      if i == 1 then
+        match a with
+        | .arr xs => Json.arr (xs.qsort fun x y => x.compress < y.compress)
+        | j => j
+      else a
+  else args
+
 def showArgs (args : List Json) : String := ((Json.arr args.toArray).compress.take 400).toString
 
 def headersMatch (model : List (String × String)) (rec : Json) : Bool :=
@@ -107,7 +119,7 @@ def replay (toJson : α → Json) : Prog α → RSt → ReplayOut
           | none => none
         else (List.range st.evs.size).find? fun i =>
           !(st.used.getD i true) && (match st.evs[i]? with
-            | some ev => ev.name == name && (canonArgs ev.name ev.args).take args'.length == args'
+            | some ev => ev.name == name && looseArgs name ((canonArgs ev.name ev.args).take args'.length) == looseArgs name args'
             | none => false))
       else findEv st name args
     match cand with
